@@ -36,6 +36,7 @@ DAll1 == {1, 2, 3, UNK, BCAST, MCAST, FILT}
 DAll2 == {1, 2, 3, 4, UNK, BCAST, MCAST, FILT}
 DAll3 == {1, 2, 3, 4, 5, UNK, BCAST, MCAST, FILT}
 DSome == {1, 2, 3, BCAST, FILT}
+DQuick == {1, 2, 3, UNK, BCAST, FILT}
 DTwo  == {1, 2, BCAST}
 DPair == {1, 2}
 DOne  == {2}
